@@ -40,3 +40,35 @@ Definition mon_udp (mask : N) (c : nat * bool * list (uop * uout)) : N :=
 
 Definition mon_c01 := mon_udp 3%N.
 Definition mon_c02 := mon_udp 2%N.
+
+(* ---- http swarm ---- *)
+From Aquatic Require Import HttpCheck HttpSwarmRefine.
+
+Definition hmon_op (mask : N) (max_peers max_scrape : nat) (r : rstate) (op : hop) (out : hout) : bool :=
+  match op, out, snd (hr_step r op) with
+  | HAnnounce v6 hash key _ _ _ want _ _, HOAnnounce s l peers, HRAnnounce s' l' =>
+      asp mask 0 (Nat.eqb s s' && Nat.eqb l l')
+      && asp mask 1 (selection_okb key (ref_remove key (r v6 hash)) (limit_http want max_peers) peers)
+  | HScrape v6 hashes, HOScrape files, HRScrape =>
+      let asked := firstn (Nat.min (length hashes) max_scrape) hashes in
+      asp mask 0 (nodupb (map fst files) && inclb (map fst files) asked && inclb asked (map fst files)
+                  && forallb (fun f => let '(s, l) := ref_counts (r v6 (fst f)) in
+                                       Nat.eqb (fst (snd f)) s && Nat.eqb (snd (snd f)) l) files)
+  | HClean _ _ _, HOClean _ _, HRClean => true
+  | _, _, _ => false
+  end.
+
+Fixpoint hmon_history (mask : N) (mp ms : nat) (r : rstate) (i : N) (h : list (hop * hout)) : option N :=
+  match h with
+  | [] => None
+  | (op, out) :: t =>
+      if hmon_op mask mp ms r op out then hmon_history mask mp ms (fst (hr_step r op)) (N.succ i) t
+      else Some i
+  end.
+
+Definition mon_http (mask : N) (c : nat * nat * list (hop * hout)) : N :=
+  let '(mp, ms, h) := c in
+  (match hmon_history mask mp ms rinit 0%N h with None => 0 | Some i => N.succ i end * 4)%N.
+
+Definition mon_c07 := mon_http 3%N.
+Definition mon_c02_http := mon_http 2%N.
